@@ -27,9 +27,10 @@
 (*                  one in the runtime KV                                   *)
 (*  SameIdentity    every later SUBSCRIBE carries it and gets it back      *)
 (*  IdentityStable  the runtime KV entry never changes                      *)
-(*  NoOrphans       after a restart, once the new core has reconciled, the *)
-(*                  master has no live task left (none can be owned: no    *)
-(*                  environment has been created in the new life yet)       *)
+(*  NoOrphans       after a restart, once the new core has reconciled (and  *)
+(*                  re-reconciled if its stream was dropped) and as long   *)
+(*                  as no environment has been requested of it, the master *)
+(*                  has no live task left (Quiesced lines)                  *)
 (*  NoFriendlyFire  no KILL call for a task locked by an environment       *)
 (*                  (hook records task.lock / task.unlock; for a child     *)
 (*                  core the last Snapshot)                                 *)
@@ -41,10 +42,10 @@ EXTENDS Restart, Integers, Sequences, Json, IOUtils
 
 Trace == ndJsonDeserialize(IOEnv.TRACE_FILE)
 
-VARIABLES l, scn, mode, child, cur, nviol,
-          m_fid, m_own, m_roster, m_phase, m_envst, m_req
-mvs == <<m_fid, m_own, m_roster, m_phase, m_envst, m_req>>
-tvars == <<l, scn, mode, child, cur, nviol, mvs>>
+VARIABLES l, scn, mode, child, cur, recheld, nviol,
+          m_fid, m_own, m_roster, m_phase, m_envst, m_req, m_fresh
+mvs == <<m_fid, m_own, m_roster, m_phase, m_envst, m_req, m_fresh>>
+tvars == <<l, scn, mode, child, cur, recheld, nviol, mvs>>
 
 Line == Trace[l]
 Ev == Line.ev
@@ -95,7 +96,8 @@ H2 == child /\ \E e \in Envs : env[e] = "locked"
 H3 == \E t \in rcv : ~KillCond(t)
 H4 == Ev = "MSubscribe" /\ ~up
 H5 == Ev = "MSubscribe" /\ up /\ conn = "down"
-H6 == Ev = "MReconcile" /\ up /\ conn = "subd"
+RecLine == Ev = "MReconcile" \/ (Ev = "MGateReached" /\ Line.point = "RECONCILE")
+H6 == RecLine /\ up /\ conn = "subd"
 H7 == \E e \in Envs : env[e] = "releasing" /\ KillLineFor(e)
 H8 == \E e \in Envs : SaysError(e) /\ ENABLED EnvError(e)
 HiddenEnabled == H1 \/ H2 \/ H3 \/ H4 \/ H5 \/ H6 \/ H7 \/ H8
@@ -132,17 +134,21 @@ MHook ==
        [] OTHER -> Same
 MUpdateL ==
   /\ Ev = "MUpdate"
-  /\ CASE Line.reason = "REASON_RECONCILIATION" -> Line.task \in Tasks /\ ReconcileUpdate(Line.task)
+  /\ CASE Line.reason = "REASON_RECONCILIATION" ->
+            Line.task \in Tasks /\ IF Line.task \in rq THEN ReconcileUpdate(Line.task) ELSE mstream = 0 /\ Same
        [] Line.reason = "" /\ Line.state = "TASK_RUNNING" -> Line.task \in Tasks /\ TaskRunning(Line.task)
        [] OTHER -> Same
 ConfSendIf(e) == IF e # NoEnv /\ env[e] = "deployed" THEN ConfigureSend(e) ELSE Same
 MMessageL ==
   /\ Ev = "MMessage"
   /\ IF Line.event = "CONFIGURE" THEN ConfSendIf(EnvOfTask(Line.task)) ELSE Same
+\* a RECONCILE call held at the master has been sent by the core: the MReconcile line follows when the master
+\* gets to answer it (if the stream has been dropped in between, the answer - MUpdate lines - goes nowhere)
 MGate ==
   /\ Ev = "MGateReached"
   /\ IF Line.point = "MESSAGE:CONFIGURE" /\ (\E e \in Envs : env[e] = "deployed")
-       THEN ConfigureSend(TheEnvIn("deployed")) ELSE Same
+       THEN ConfigureSend(TheEnvIn("deployed"))
+       ELSE IF Line.point = "RECONCILE" THEN Reconcile ELSE Same
 MKillL ==
   /\ Ev = "MKill" /\ Line.task \in Tasks
   /\ LET t == Line.task
@@ -151,7 +157,7 @@ MKillL ==
         ELSE IF e # NoEnv /\ env[e] = "killing" THEN KillSend(e)
         ELSE e # NoEnv /\ env[e] = "done" /\ Same
 MSub == Ev = "MSubscribe" /\ Line.fid = sfid /\ Subscribed(Line.assigned)
-MRec == Ev = "MReconcile" /\ Reconcile
+MRec == Ev = "MReconcile" /\ IF conn = "stored" THEN Reconcile ELSE recheld /\ Same
 MDrop == Ev = "MStreamDropped" /\ DropConnection
 MCrash == Ev = "CoreKilled" /\ Crash
 MSnap == Ev = "Snapshot" /\ SnapOK /\ Same
@@ -182,14 +188,14 @@ SnapEnvs == [e \in {r.env : r \in SetOf(Line.envs)} |-> (CHOOSE r \in SetOf(Line
 Monitor ==
   CASE Ev = "Reset" ->
          /\ m_fid' = 0 /\ m_own' = {} /\ m_roster' = {} /\ m_phase' = "steady" /\ m_envst' = <<>> /\ m_req' = {}
-         /\ nviol' = nviol
+         /\ m_fresh' = FALSE /\ nviol' = nviol
     [] Ev = "Fid" ->
          /\ m_fid' = IF m_fid = 0 /\ Len(Line.frameworks) = 1 THEN Line.frameworks[1] ELSE m_fid
          /\ nviol' = nviol
               + (IF m_fid = 0 THEN Soft("IdentityStored", Line.present /\ Line.stored \in SetOf(Line.frameworks),
                                         <<Line.stored, Line.frameworks>>)
                  ELSE Soft("IdentityStable", Line.stored = m_fid, <<Line.stored, m_fid>>))
-         /\ UNCHANGED <<m_own, m_roster, m_phase, m_envst, m_req>>
+         /\ UNCHANGED <<m_own, m_roster, m_phase, m_envst, m_req, m_fresh>>
     [] Ev = "MSubscribe" ->
          /\ nviol' = nviol + Soft("SameIdentity", Line.fid = m_fid /\ Line.assigned = m_fid, <<Line.fid, Line.assigned, m_fid>>)
          /\ UNCHANGED mvs
@@ -198,26 +204,27 @@ Monitor ==
                        [] Line.point = "task.unlock" -> {p \in m_own : p[1] # Line.task}
                        [] OTHER -> m_own
          /\ m_roster' = IF Line.point = "task.roster.appended" THEN m_roster \cup {Line.task} ELSE m_roster
-         /\ UNCHANGED <<m_fid, m_phase, m_envst, m_req, nviol>>
+         /\ UNCHANGED <<m_fid, m_phase, m_envst, m_req, m_fresh, nviol>>
     [] Ev = "Api" ->
          /\ m_phase' = "steady"
          /\ m_own' = IF child /\ Line.call = "destroy" THEN {p \in m_own : p[2] # Line.env} ELSE m_own
          /\ m_req' = m_req \cup {Line.env}
+         /\ m_fresh' = (m_fresh /\ Line.call # "create")
          /\ UNCHANGED <<m_fid, m_roster, m_envst, nviol>>
     [] Ev = "ApiReply" ->
          /\ m_req' = m_req \ {Line.env}
-         /\ UNCHANGED <<m_fid, m_own, m_roster, m_phase, m_envst, nviol>>
+         /\ UNCHANGED <<m_fid, m_own, m_roster, m_phase, m_envst, m_fresh, nviol>>
     [] Ev = "CoreKilled" ->
-         /\ m_phase' = "restart" /\ m_own' = {} /\ m_roster' = {} /\ m_envst' = <<>>
+         /\ m_phase' = "restart" /\ m_own' = {} /\ m_roster' = {} /\ m_envst' = <<>> /\ m_fresh' = TRUE
          /\ UNCHANGED <<m_fid, m_req, nviol>>
     [] Ev = "MStreamDropped" ->
          /\ m_phase' = "reconnect"
-         /\ UNCHANGED <<m_fid, m_own, m_roster, m_envst, m_req, nviol>>
+         /\ UNCHANGED <<m_fid, m_own, m_roster, m_envst, m_req, m_fresh, nviol>>
     [] Ev = "MKill" ->
          /\ nviol' = nviol + Soft("NoFriendlyFire", NoPairFor(Line.task), <<m_phase, Line.task \in m_roster, Line.task>>)
          /\ UNCHANGED mvs
     [] Ev = "Quiesced" ->
-         /\ nviol' = nviol + Soft("NoOrphans", m_phase = "restart" => Line.alive = <<>>, <<m_phase, Line.alive>>)
+         /\ nviol' = nviol + Soft("NoOrphans", m_fresh => Line.alive = <<>>, <<m_phase, Line.alive>>)
          /\ UNCHANGED mvs
     [] Ev = "Snapshot" ->
          /\ m_roster' = {r.task : r \in SetOf(Line.roster)}
@@ -229,7 +236,7 @@ Monitor ==
                    THEN Soft("EnvStays", \A e \in DOMAIN m_envst : Stable(m_envst[e]) =>
                                             (e \in DOMAIN SnapEnvs /\ SnapEnvs[e] = m_envst[e]), <<m_envst, SnapEnvs>>)
                    ELSE 0)
-         /\ UNCHANGED <<m_fid, m_phase, m_req>>
+         /\ UNCHANGED <<m_fid, m_phase, m_req, m_fresh>>
     [] Ev = "Poll" ->
          /\ nviol' = nviol
               + Soft("EnvStays", ~(m_phase = "reconnect" /\ Line.reached /\ Line.env \in DOMAIN m_envst /\ Stable(m_envst[Line.env])),
@@ -240,8 +247,8 @@ Monitor ==
 ---------------------------------------------------------------------------
 TraceInit ==
   /\ Init
-  /\ l = 1 /\ scn = -1 /\ mode = "lost" /\ child = FALSE /\ cur = NoEnv /\ nviol = 0
-  /\ m_fid = 0 /\ m_own = {} /\ m_roster = {} /\ m_phase = "steady" /\ m_envst = <<>> /\ m_req = {}
+  /\ l = 1 /\ scn = -1 /\ mode = "lost" /\ child = FALSE /\ cur = NoEnv /\ recheld = FALSE /\ nviol = 0
+  /\ m_fid = 0 /\ m_own = {} /\ m_roster = {} /\ m_phase = "steady" /\ m_envst = <<>> /\ m_req = {} /\ m_fresh = FALSE
 
 Consume ==
   /\ l' = l + 1
@@ -249,6 +256,8 @@ Consume ==
   /\ scn' = IF Ev = "Reset" THEN Line.scn ELSE scn
   /\ child' = IF Ev = "Reset" THEN Line.model.child ELSE child
   /\ cur' = IF Ev = "Reset" THEN NoEnv ELSE IF Ev = "Api" /\ Line.call = "create" THEN Line.env ELSE cur
+  /\ recheld' = IF Ev = "MGateReached" /\ Line.point = "RECONCILE" THEN TRUE
+                ELSE IF Ev \in {"MReconcile", "Reset"} THEN FALSE ELSE recheld
   /\ IF Ev = "Reset" THEN Booted /\ mode' = "ok"
      ELSE IF mode = "ok"
        THEN IF ENABLED MatchLine THEN MatchLine /\ mode' = "ok"
